@@ -19,5 +19,18 @@ Next == \E i \in Ids : Write(i) /\ hist' = Append(hist, i)
 Spec == Init /\ [][Next]_<<ovars, hist>>
 
 View == <<txs, off, lock, wire>>
+
+(* ---- the reply ledger over every request type (C14: "at most one reply per request, to that connection") ------ *)
+(* every transaction type a logged-in client may send, in five argument classes: typical well-formed arguments,
+   no fields at all, targets that do not exist, names that exist already (or are aliases of existing ones after
+   path normalisation), every field cut to one byte.  vh-outbox sweep issues them one after the other on one
+   privileged connection next to two bystanders and records each connection's ledger. *)
+LedgerTypes == {101, 103, 105, 108, 110, 112, 113, 114, 115, 116, 120, 121,
+                200, 202, 203, 204, 205, 206, 207, 208, 209, 210, 212, 213,
+                300, 303, 304, 348, 349, 350, 351, 352, 353, 355,
+                370, 371, 380, 381, 382, 400, 410, 411, 500}
+LedgerVariants == {"ok", "empty", "absent", "exists", "short"}
+LedgerCases == {[type |-> t, variant |-> v] : t \in LedgerTypes, v \in LedgerVariants}
+(* (emitted by Gen_OutboxLedger: TLC evaluates constant definitions eagerly, so the printing operator lives there) *)
 Emit == AllSent' => PrintT("B " \o ToJson([sizes |-> txs, order |-> hist']))
 =============================================================================
